@@ -98,7 +98,7 @@ def build_jobs(tier, seed, stats, want_ops=True):
         jobs.append((b, f"G+T enum[{sname}]"))
     # ---- random: bundled schemas and variants
     n_docs = 25 if not thorough else 250
-    for name in schemas.BUNDLED_PLUS + ["s1", "s3", "s4", "bm"]:
+    for name in schemas.BUNDLED_PLUS + ["s1", "s3", "s4", "bm", "grid"]:
         sch, js, pairs = universe.random_docs(name, n_docs, rng)
         slices = []
         for toks, rd in pairs:
@@ -130,6 +130,14 @@ def build_jobs(tier, seed, stats, want_ops=True):
                 st = sg.around_with_flat_gap(rd)
                 if st is not None:
                     steps.ev_apply(b, rd, di, st, tag="around")
+            for _ in range(12 if name != "grid" else 40):
+                st = sg.cross_sibling_delete(rd)
+                if st is not None:
+                    steps.ev_apply(b, rd, di, st, tag="crossDelete")
+                    try:
+                        steps.ev_apply(b, rd, di, steps.via_json(sch, st), tag="crossDelete-json")
+                    except Exception:  # noqa: BLE001
+                        pass
             for _ in range(12):
                 st = sg.around_balanced_open_gap(rd)
                 if st is not None:
